@@ -2,6 +2,16 @@
 the evidence texts (rule, assumptions)."""
 
 PLAN = {
+    "C07": {
+        "quick": [
+            {"kind": "enum", "test": "TestEnumC07", "env": {"VERIF_BOUND": 7, "VERIF_ALPHA": 8}, "timeout": 600},
+            {"kind": "rapid", "test": "TestC07Laws", "checks": 30000},
+        ],
+        "thorough": [
+            {"kind": "enum", "test": "TestEnumC07", "env": {"VERIF_BOUND": 8, "VERIF_ALPHA": 9}, "timeout": 3000},
+            {"kind": "rapid", "test": "TestC07Laws", "checks": 300000, "shards": 16},
+        ],
+    },
     "C10": {
         "quick": [
             {"kind": "enum", "test": "TestEnumC10", "env": {"VERIF_BOUND": 7, "VERIF_INNER_BOUND": 5, "VERIF_ALPHA": 8}, "timeout": 600},
@@ -17,6 +27,7 @@ PLAN = {
 }
 
 RULES = {
+    "C07": "enumeration: every string of up to 7 (quick) / 8 (thorough) tokens over {start marker, end marker, cross, LF, 'a', E2, 80, B9[, BA]} through Redact/StripMarkers (string and bytes variants, ToBytes/ToString), with the concatenation law at every token boundary; rapid: strings of up to 30 tokens over the byte alphabet with toggled envelopes (3/4 biased to well-formed) and pairs for the concatenation law. Non-trivial = the string contains at least one marker. Distinct = distinct input strings (64-bit FNV fingerprint).",
     "C10": "enumeration: every byte string up to the length bound over {E2,80,B9,BA,'a',LF,'?',C3[,space]} through EscapeMarkers/EscapeBytes, and through the internal routine for every start offset and both line-break settings; rapid: strings of up to 40 tokens over the byte alphabet (markers, marker bytes, other lead bytes, FF, text) and random splits of one payload into Write/WriteString calls on a ManualBuffer. Non-trivial = the input contains a full marker or an individual marker byte (for splits: and at least one cut). Distinct = distinct (check, input, offset, flag) by 64-bit FNV fingerprint (set capped at 4M per process).",
 }
 
@@ -26,6 +37,7 @@ ASSUMPTIONS = {
         "Go toolchain packages used by the oracles (unicode/utf8, bytes, fmt of go1.23.5) are correct",
         "generated search establishes absence of counter-examples only within the explored cases / stated enumeration bounds",
     ],
+    "C07": ["well-formedness is judged at byte level (a marker is the 3-byte sequence E2 80 B9/BA wherever it occurs)"],
     "C10": ["reference for escaping: left-to-right replacement of each 3-byte marker by '?'; delimiter elision and empty envelopes are immaterial (compared after normalisation)"],
 }
 
@@ -34,6 +46,12 @@ HOOK_COMMITS = ["cf350cc"]
 NOT_APPLICABLE = {}
 
 CLAIMS = {
+    "C07": {
+        "text": "All strings of up to 7/8 tokens over the alphabet the two operations can distinguish (both markers, the cross, LF, an ordinary byte and three/four partial-marker bytes) are enumerated completely and each is judged by the algebraic laws of the statement (equality with a byte-level reference on well-formed inputs, idempotence, no marker after StripMarkers, agreement of string/bytes variants, concatenation homomorphism); longer strings are sampled with rapid. Exploration, exhaustive up to the token bound: the regular expressions have no memory beyond one envelope, so short strings cover every adjacency (empty, adjacent, first, last, nested, unbalanced envelopes).",
+        "design_ref": "DESIGN.md §4.7",
+        "note": "Trusted: the 15-line byte-level reference (refRedact/strip/WF in harness/oracle.go). On inputs where deleting exactly the delimiters would itself splice a marker out of partial bytes (invalid UTF-8 only) exactness and 'no marker left' cannot both hold; there only the latter is required.",
+        "technique": "bounded exhaustive enumeration + rapid property-based testing of algebraic laws against a reference model",
+    },
     "C10": {
         "text": "Exhaustive enumeration of all byte strings up to length 7 (quick) / 8 (thorough) over an alphabet made of each individual marker byte, another lead byte, line feed, '?' and an ordinary byte, through EscapeMarkers, EscapeBytes and (hook) the internal escape routine for every start offset and both line-break settings, compared with a 15-line reference; plus rapid-generated long strings and random Write/WriteString splits. Exploration, complete up to the bound: escaping bugs are local (3-byte window, buffer end, prefix boundary), so a bound of 7-8 bytes covers every relative position of two markers and the buffer edges.",
         "design_ref": "DESIGN.md §4.10",
